@@ -194,8 +194,7 @@ func runFaultCase(fc FaultCase, pre *host.Host) (host.Result, []*host.Fault) {
 // FX1: RecoverProgram's returned error is discarded by CheckingEnvironment.recoverProgram
 //      (the original parsing/checking error is reported instead).
 // FX2: BLS.aggregateSignatures / aggregatePublicKeys map any host error to nil.
-// FX3: vmEnvironment.load{Composite,Interface,Entitlement,EntitlementMap}Type discard the error of
-//      loadProgram (GetOrLoadProgram) -> TypeLoadingError user error, or "type absent" and success.
+// FX3: (fixed in /repo 722c2b5, no longer excluded) vmEnvironment.load*Type discarded the error of loadProgram.
 // FX4: atree CheckStorageHealth tests `!ok` before `err` -> a GetValue error during the post-commit
 //      health check surfaces as SlabNotFoundError without the cause (dependency atree v0.16.1).
 func knownFinding(fc FaultCase, class string, res host.Result, faults []*host.Fault) string {
@@ -209,9 +208,6 @@ func knownFinding(fc FaultCase, class string, res host.Result, faults []*host.Fa
 	case (fc.Kind == "BLSAggregateSignatures" || fc.Kind == "BLSAggregatePublicKeys") && fc.Variant == host.FaultError &&
 		(class == "swallowed" || class == "not-carried"):
 		return "FX2"
-	case fc.Kind == "GetOrLoadProgram" && fc.Variant == host.FaultError && host.Engine(fc.Engine) != host.Interp &&
-		(class == "swallowed" || (class == "not-carried" && info.HasType("TypeLoadingError"))):
-		return "FX3"
 	case fc.Kind == "GetValue" && fc.Variant == host.FaultError && class == "not-carried" && info.HasType("atree.SlabNotFoundError") &&
 		len(res.Writes) > 0 && res.Writes[0].TracePos < faults[0].FiredAt:
 		return "FX4"
@@ -222,7 +218,6 @@ func knownFinding(fc FaultCase, class string, res host.Result, faults []*host.Fa
 var knownRepros = map[string]FaultCase{
 	"FX1": {Item: findItem("script-check-error"), Engine: 0, Step: 0, Kind: "RecoverProgram", Index: 0, Variant: host.FaultError},
 	"FX2": {Item: findItem("script-bls"), Engine: 0, Step: 0, Kind: "BLSAggregateSignatures", Index: 0, Variant: host.FaultError},
-	"FX3": {Item: findItem("script-containers"), Engine: 1, Step: 0, Kind: "GetOrLoadProgram", Index: 2, Variant: host.FaultError},
 	"FX4": {Item: findItem("tx-storage-big"), Engine: 1, Step: 1, Kind: "GetValue", Index: 14, Variant: host.FaultError},
 }
 
@@ -245,7 +240,7 @@ func TestC28(t *testing.T) {
 		return
 	}
 
-	for _, id := range []string{"FX1", "FX2", "FX3", "FX4"} {
+	for _, id := range []string{"FX1", "FX2", "FX4"} {
 		if rec.Known(id) {
 			fc := knownRepros[id]
 			res, faults := runFaultCase(fc, nil)
